@@ -4,6 +4,7 @@ import VlsModel.Gen.FnEnforceVal
 import VlsModel.Gen.FnNodePay
 import VlsModel.Lemmas.FnGen
 import VlsModel.Lemmas.PaymentsFn
+import VlsModel.Lemmas.PaymentsFnSummary
 /-
 C06 — pieces of the hand-written payments model (`Model/Payments.lean`) proved equal to the function bodies that
 `translate/rs2lean.py` regenerates on every run from
@@ -209,5 +210,208 @@ theorem C06_fn_is_forwarded_payment_prunable (nch : Nat) (r : RP) (hw : WF nch r
   cases (Rs.omapGet invoices h).isNone <;> cases (Rs.omapGet issued h).isNone <;>
     cases (sumCh nch (abs r).inc == 0) <;> simp
 
+
+end VlsModel.Props.C06Fn
+
+/-! ### `EnforcementState::{summarize_payments, payments_summary, incoming_payments_summary}` (validator.rs, area `EnforcePay`)
+
+The generated functions return maps over the payment hash (association lists, order not represented); the ties are
+stated through `Rs.omapGet`.  `gl` turns a model HTLC list into the generated records, `ciOf (offered, received)` a
+commitment info, `esOf curH curC` an enforcement state whose two current commitments exist (a channel before its first
+commitments carries no HTLC; the model then uses `Info.empty`).  Proofs: `Lemmas/PaymentsFnSummary.lean`. -/
+namespace VlsModel.Props.C06Fn
+open VlsModel VlsModel.Payments VlsModel.Payments.Fn VlsModel.Payments.FnS
+open VlsModel.Gen.FnEnforcePay
+
+/-- `summarize_payments(htlcs)[h]` = `sumFor htlcs h` (absent for a hash that does not occur); it overflows exactly
+    when the model's `sumsOkL` fails (`hv`: the values are `u64`) -/
+theorem C06_fn_summarize_payments (l : List Htlc) (hv : ∀ y ∈ l, y.value ≤ U64.MAX) :
+    (sumsOkL l = true → ∃ m, EnforcementState.summarize_payments (gl l) = Except.ok m ∧
+        ∀ h, Rs.omapGet m h = if h ∈ hashes l then some (sumFor l h) else none) ∧
+    (sumsOkL l = false → EnforcementState.summarize_payments (gl l) = Except.error .overflow) :=
+  summarize_payments_main l hv
+
+/-- `payments_summary(new_holder_tx, new_counterparty_tx)`: per hash the MAX of the two effective views, keys = the
+    hashes of the effective views and of the current commitments (`outSpec`); overflow exactly when one summary does -/
+theorem C06_fn_payments_summary (curH curC : List Htlc × List Htlc) (newH newC : Option (List Htlc × List Htlc))
+    (hv1 : ∀ y ∈ (newH.getD curH).1, y.value ≤ U64.MAX) (hv2 : ∀ y ∈ (newC.getD curC).2, y.value ≤ U64.MAX) :
+    (sumsOkL (newH.getD curH).1 = true → sumsOkL (newC.getD curC).2 = true →
+      ∃ m, (esOf curH curC).payments_summary (newH.map ciOf) (newC.map ciOf) = Except.ok m ∧
+        ∀ h, Rs.omapGet m h = outSpec (newH.getD curH).1 (newC.getD curC).2 curH.1 curC.2 h) ∧
+    (sumsOkL (newH.getD curH).1 = false ∨ sumsOkL (newC.getD curC).2 = false →
+      (esOf curH curC).payments_summary (newH.map ciOf) (newC.map ciOf) = Except.error .overflow) :=
+  payments_summary_main curH curC newH newC hv1 hv2
+
+/-- `incoming_payments_summary(..)`: per hash the MIN of the two effective views, keys = the hashes present in BOTH
+    effective views plus the hashes of the current commitments (`inSpec`) -/
+theorem C06_fn_incoming_payments_summary (curH curC : List Htlc × List Htlc)
+    (newH newC : Option (List Htlc × List Htlc))
+    (hv1 : ∀ y ∈ (newH.getD curH).2, y.value ≤ U64.MAX) (hv2 : ∀ y ∈ (newC.getD curC).1, y.value ≤ U64.MAX) :
+    (sumsOkL (newH.getD curH).2 = true → sumsOkL (newC.getD curC).1 = true →
+      ∃ m, (esOf curH curC).incoming_payments_summary (newH.map ciOf) (newC.map ciOf) = Except.ok m ∧
+        ∀ h, Rs.omapGet m h = inSpec (newH.getD curH).2 (newC.getD curC).1 curH.2 curC.1 h) ∧
+    (sumsOkL (newH.getD curH).2 = false ∨ sumsOkL (newC.getD curC).1 = false →
+      (esOf curH curC).incoming_payments_summary (newH.map ciOf) (newC.map ciOf) = Except.error .overflow) :=
+  incoming_payments_summary_main curH curC newH newC hv1 hv2
+
+/-- `outSpec` / `inSpec` are the model: for effective views `hEff`, `cEff` and current views `hCur`, `cCur` (holder
+    commitment: offered = outgoing, received = incoming; counterparty commitment: the reverse) the two summaries carry
+    `outVal` / `inVal`, and a hash is a key of one of them iff it is in the model's `keys` -/
+theorem C06_fn_summaries_are_the_model (hEff cEff hCur cCur : Info) (h : Hash) :
+    outSpec hEff.out cEff.out hCur.out cCur.out h
+        = (if h ∈ hashes hEff.out ++ hashes cEff.out ++ hashes hCur.out ++ hashes cCur.out
+           then some (outVal hEff cEff h) else none) ∧
+    inSpec hEff.inc cEff.inc hCur.inc cCur.inc h
+        = (if h ∈ (hashes hEff.inc).filter (fun x => x ∈ hashes cEff.inc) ++ hashes hCur.inc ++ hashes cCur.inc
+           then some (inVal hEff cEff h) else none) ∧
+    (h ∈ keys hEff cEff hCur cCur ↔
+      (inSpec hEff.inc cEff.inc hCur.inc cCur.inc h).isSome ∨ (outSpec hEff.out cEff.out hCur.out cCur.out h).isSome) := by
+  unfold outSpec inSpec outVal inVal keys
+  refine ⟨?_, ?_, ?_⟩
+  · simp only [List.mem_append]
+    by_cases a : (h ∈ hashes hEff.out ∨ h ∈ hashes cEff.out ∨ h ∈ hashes hCur.out ∨ h ∈ hashes cCur.out)
+    · have : ((h ∈ hashes hEff.out ∨ h ∈ hashes cEff.out) ∨ h ∈ hashes hCur.out) ∨ h ∈ hashes cCur.out := by
+        rcases a with a | a | a | a <;> simp [a]
+      simp [a, this]
+    · have : ¬ (((h ∈ hashes hEff.out ∨ h ∈ hashes cEff.out) ∨ h ∈ hashes hCur.out) ∨ h ∈ hashes cCur.out) := by
+        intro b; apply a; rcases b with ((b | b) | b) | b <;> simp [b]
+      simp [a, this]
+  · simp only [List.mem_append, List.mem_filter, decide_eq_true_eq]
+    by_cases a : ((h ∈ hashes hEff.inc ∧ h ∈ hashes cEff.inc) ∨ h ∈ hashes hCur.inc ∨ h ∈ hashes cCur.inc)
+    · have : ((h ∈ hashes hEff.inc ∧ h ∈ hashes cEff.inc) ∨ h ∈ hashes hCur.inc) ∨ h ∈ hashes cCur.inc := by
+        rcases a with a | a | a <;> simp [a]
+      simp [a, this]
+    · have : ¬ (((h ∈ hashes hEff.inc ∧ h ∈ hashes cEff.inc) ∨ h ∈ hashes hCur.inc) ∨ h ∈ hashes cCur.inc) := by
+        intro b; apply a; rcases b with (b | b) | b <;> simp [b]
+      simp [a, this]
+  · simp only [List.mem_append, List.mem_filter, decide_eq_true_eq]
+    by_cases a1 : h ∈ hashes hEff.inc <;> by_cases a2 : h ∈ hashes cEff.inc <;> by_cases a3 : h ∈ hashes hCur.inc <;>
+      by_cases a4 : h ∈ hashes cCur.inc <;> by_cases b1 : h ∈ hashes hEff.out <;> by_cases b2 : h ∈ hashes cEff.out <;>
+      by_cases b3 : h ∈ hashes hCur.out <;> by_cases b4 : h ∈ hashes cCur.out <;>
+      simp [a1, a2, a3, a4, b1, b2, b3, b4]
+
+end VlsModel.Props.C06Fn
+
+/-! ### The loop body of `NodeState::validate_payments`, composed from the generated pieces
+
+`validate_payments` itself is outside the translator's subset; `genCheckHash` transcribes its per-hash loop body by hand
+using nothing but generated definitions, and `C06_fn_checkHash` shows that the model's `checkHash` is exactly that
+composition (order: cltv gate on the stored bounds, `updated_incoming_outgoing`, the two `* 1000`, the balance check,
+the TODO(331) tolerance), for every hash, entry and invoice. -/
+namespace VlsModel.Props.C06Fn
+open VlsModel VlsModel.Payments VlsModel.Payments.Fn
+open VlsModel.Gen.FnNodePay
+open VlsModel.Gen.FnSimplePay (SimpleValidator)
+
+/-- The body of the preflight loop of `NodeState::validate_payments` for one hash, transcribed by hand (the function
+    itself is outside the translator's subset: `dyn Validator`, an unordered set, `?` inside the loop) but built ONLY from
+    the generated definitions: `get_cltv_bounds`, `validate_payment_cltv`, `updated_incoming_outgoing`, the two checked
+    `* 1000`, `validate_payment_balance`.  `true` = balanced or tolerated (TODO(331)), `false` = pushed to `unbalanced`. -/
+def genCheckHash (v : SimpleValidator) (inv : Option Nat) (pay : Option RP) (c ni no : Nat) : Rs.M Bool := do
+  let io ← (match pay with
+    | some p => do
+        let _ ← (match p.get_cltv_bounds with
+          | some (ic, oc) => v.validate_payment_cltv errAll ic oc
+          | none => pure ())
+        p.updated_incoming_outgoing c ni no
+    | none => pure (ni, no))
+  let i1000 ← Rs.umul Rs.U64_MAX io.1 1000
+  let o1000 ← Rs.umul Rs.U64_MAX io.2 1000
+  match v.validate_payment_balance errAll i1000 o1000 inv with
+  | .ok () => pure true
+  | .error (.err _) => pure (pay.isSome && inv.isNone)
+  | .error f => .error f
+
+def relC : Rs.M Bool → VRes
+  | .ok true => .ok
+  | .ok false => .err
+  | .error (.err _) => .err
+  | .error _ => .panic
+
+theorem umul_ok {m a b : Nat} (h : a * b ≤ m) : Rs.umul m a b = .ok (a * b) := by simp [Rs.umul, h]
+theorem umul_ov {m a b : Nat} (h : ¬ a * b ≤ m) : Rs.umul m a b = .error .overflow := by
+  simp [Rs.umul, h, Rs.overflow]
+
+/-- the part of the loop body after the totals are known -/
+theorem checkHash_tail (pol : Policy) (i o : Nat) (inv : Option Nat) (b : Bool) :
+    relC (do
+      let i1000 ← Rs.umul Rs.U64_MAX i 1000
+      let o1000 ← Rs.umul Rs.U64_MAX o 1000
+      match (toV pol).validate_payment_balance errAll i1000 o1000 inv with
+      | .ok () => pure true
+      | .error (.err _) => pure b
+      | .error f => .error f)
+    = (if i * 1000 > U64.MAX ∨ o * 1000 > U64.MAX then VRes.panic else
+        match balance pol (i * 1000) (o * 1000) inv with
+        | .ok => .ok
+        | .panic => .panic
+        | .err => if b then .ok else .err) := by
+  have e : Rs.U64_MAX = U64.MAX := rfl
+  by_cases h1 : i * 1000 ≤ Rs.U64_MAX
+  · by_cases h2 : o * 1000 ≤ Rs.U64_MAX
+    · have g : ¬ (i * 1000 > U64.MAX ∨ o * 1000 > U64.MAX) := by rw [e] at h1 h2; omega
+      rw [umul_ok h1, Rs.bind_ok, umul_ok h2, Rs.bind_ok]
+      simp only [g, if_false]
+      have hb := C06_fn_validate_payment_balance pol (i * 1000) (o * 1000) inv h1
+      cases hr : (toV pol).validate_payment_balance errAll (i * 1000) (o * 1000) inv with
+      | ok u =>
+        rw [hr] at hb
+        simp only [relV] at hb
+        rw [← hb]
+        rfl
+      | error f =>
+        rw [hr] at hb
+        cases f with
+        | err t =>
+          simp only [relV] at hb
+          rw [← hb]
+          cases b <;> rfl
+        | panic => simp only [relV] at hb; rw [← hb]; rfl
+        | overflow => simp only [relV] at hb; rw [← hb]; rfl
+    · have g : (i * 1000 > U64.MAX ∨ o * 1000 > U64.MAX) := by rw [e] at h2; omega
+      rw [umul_ok h1, Rs.bind_ok, umul_ov h2, Rs.bind_err]
+      simp [g, relC]
+  · have g : (i * 1000 > U64.MAX ∨ o * 1000 > U64.MAX) := by rw [e] at h1; omega
+    rw [umul_ov h1, Rs.bind_err]
+    simp [g, relC]
+
+theorem C06_fn_checkHash (invoices : Hash → Option Invoice) (payments : Hash → Option Payment) (pol : Policy)
+    (nch c ni no : Nat) (h : Hash) (pay : Option RP)
+    (hp : payments h = pay.map abs) (hw : ∀ p, pay = some p → WF nch p) :
+    relC (genCheckHash (toV pol) ((invoices h).map (·.amount)) pay c ni no)
+      = checkHash invoices payments pol nch c ni no h := by
+  unfold genCheckHash checkHash
+  cases pay with
+  | none =>
+    simp only [Option.map_none] at hp
+    simp only [hp, Rs.pure_eq, Rs.bind_ok, Bool.not_true, Bool.false_eq_true, if_false, Option.isSome_none,
+      Bool.false_and]
+    exact checkHash_tail pol ni no _ false
+  | some p =>
+    simp only [Option.map_some] at hp
+    have hwp := hw p rfl
+    simp only [hp, C06_fn_get_cltv_bounds pol p]
+    cases hb : p.get_cltv_bounds with
+    | none =>
+      simp only [Rs.pure_eq, Rs.bind_ok, Bool.not_true, Bool.false_eq_true, if_false,
+        C06_fn_updated_incoming_outgoing nch p hwp c ni no]
+      cases hu : (abs p).updated nch c ni no with
+      | none => simp [Rs.bind_err, relC]
+      | some io =>
+        simp only [Rs.bind_ok, Option.isSome_some, Bool.true_and, Option.isNone_map]
+        exact checkHash_tail pol io.1 io.2 _ _
+    | some ab =>
+      obtain ⟨a, b⟩ := ab
+      simp only [C06_fn_validate_payment_cltv]
+      by_cases hc : cltvOk pol a b = true
+      · simp only [hc, if_true, Rs.bind_ok, Bool.not_true, Bool.false_eq_true, if_false,
+          C06_fn_updated_incoming_outgoing nch p hwp c ni no]
+        cases hu : (abs p).updated nch c ni no with
+        | none => simp [Rs.bind_err, relC]
+        | some io =>
+          simp only [Rs.bind_ok, Option.isSome_some, Bool.true_and, Option.isNone_map]
+          exact checkHash_tail pol io.1 io.2 _ _
+      · have hc' : cltvOk pol a b = false := by simpa using hc
+        simp [hc', Rs.bind_err, relC]
 
 end VlsModel.Props.C06Fn
